@@ -393,6 +393,35 @@ def run_canaries():
 
 
 # ------------------------------------------------------------------------------------------------ bounded parts
+def spreadsheet_label(i):
+    """the i-th default row label (1-based): A..Z, AA, AB, ... — bijective base 26, most significant letter first (the
+    convention of 1536-well plates and spreadsheets; what makes label 'AB' and integer 28 interchangeable)"""
+    out = ''
+    while i > 0:
+        i, r = divmod(i - 1, 26)
+        out = chr(ord('A') + r) + out
+    return out
+
+
+NATIVE_LABELS = r'''
+from pyplate import Plate
+from contracts.c13_slicer_labels import spreadsheet_label
+def run():
+    fails = []
+    for R_, C_ in %r:
+        p = Plate('p', '10 uL', rows=R_, columns=C_)
+        if list(p.row_names) != [spreadsheet_label(i) for i in range(1, R_ + 1)]:
+            fails.append('rows of %%dx%%d: %%r' %% (R_, C_, list(p.row_names)[-4:]))
+        if list(p.column_names) != [str(i) for i in range(1, C_ + 1)]:
+            fails.append('columns of %%dx%%d: %%r' %% (R_, C_, list(p.column_names)[-4:]))
+        for r in range(R_):
+            for c in range(C_):
+                if p.wells[r, c].name != 'well %%s,%%s' %% (p.row_names[r], p.column_names[c]):
+                    fails.append('well name %%r at %%d,%%d' %% (p.wells[r, c].name, r, c))
+    return {'ok': not fails, 'observed': fails[:3] or 'documented labels', 'expected': 'A..Z, AA, AB, ... / 1, 2, ...'}
+'''
+
+
 def run_plate_init_bounded(nmax):
     """Bounded: Plate.__init__ executed (in the interpreter, on the real AST) for plate shapes up to nmax rows/columns:
     default labels are distinct, non-blank, 'A'.. / '1'..; wells[r,c].name == 'well <row>,<col>'."""
@@ -410,8 +439,8 @@ def run_plate_init_bounded(nmax):
                 return ('fail', 'labels not distinct / wrong count')
             if cn != [str(i + 1) for i in range(C)]:
                 return ('fail', f'column labels {cn[:5]}')
-            if rn[0] != 'A' or (R > 1 and rn[1] != 'B') or (R > 26 and rn[26] != 'AA') or any(not x.strip() for x in rn):
-                return ('fail', f'row labels {rn[:3]}')
+            if rn != [spreadsheet_label(i) for i in range(1, R + 1)] or any(not x.strip() for x in rn):
+                return ('fail', f'row labels {rn[:3]} .. {rn[-3:]}')
             w = p.fields['wells']
             for r in range(R):
                 for c in range(C):
@@ -426,6 +455,14 @@ def run_plate_init_bounded(nmax):
                 v, note = ('proved' if out[0] == 'ok' else 'refuted'), out[1]
             res.append({'name': f'{PID}/Plate.__init__/bounded[labels,wells]', 'case': f'{R}x{C}', 'kind': 'bounded',
                         'verdict': v, 'note': note, 'count': 1, 'bound': bound, 'secs': 0.0})
+    if any(r['verdict'] == 'unknown' for r in res):
+        # the constructor uses something the engine cannot follow: the same shapes are constructed natively (refutation only)
+        from pyvc import harness
+        job = {'inputs': {'shapes': shapes}, 'code': NATIVE_LABELS % (shapes,)}
+        out = harness.run_replay(job)
+        if out.get('ok') is False:
+            res.append({'name': f'{PID}/Plate.__init__/bounded[labels,wells]', 'case': 'native', 'kind': 'bounded', 'verdict': 'refuted',
+                        'note': str(out.get('observed'))[:300], 'count': 1, 'bound': bound, 'secs': 0.0, 'replays': [job]})
     # custom labels: duplicates / blanks / empty are refused, good ones are kept
     for rows, cols, good in ([['x', 'y', 'z'], ['1', 'b'], True], [['x', 'x'], ['1'], False], [['x', ' '], ['1'], False],
                              [[], ['1'], False], [['x'], ['a', 'a'], False], [['x'], [''], False]):
